@@ -227,13 +227,18 @@ def oracle_rescale(ctx: Ctx, case):
     low, high = np.asarray(case["low"], np.float64), np.asarray(case["high"], np.float64)
     ctx.check(np.allclose(np.asarray(env.action_space.low), mn) and np.allclose(np.asarray(env.action_space.high), mx), "C13/rescale/advertised-action-space", low=env.action_space.low, high=env.action_space.high)
     scale = np.maximum(np.abs(low), np.abs(high)) + 1.0
+    # float32 conditioning of x -> (x - intercept) / gradient with gradient = (max-min)/(high-low),
+    # intercept = min - low*gradient: absolute error ~ eps32 * (|x| + |intercept|) / gradient
+    grad = (mx.astype(np.float64) - mn) / (high - low)
+    icpt = mn - low * grad
+    cond = 8 * 1.2e-7 * (np.maximum(np.abs(mn), np.abs(mx)) + np.abs(icpt)) / grad
     for name, pt, exp in (("min->low", mn, low), ("max->high", mx, high), ("mid->mid", (mn + mx) / 2, (low + high) / 2), ("mixed", np.where(np.arange(k) % 2 == 0, mn, mx), np.where(np.arange(k) % 2 == 0, low, high))):
         got = np.asarray(env.func(jnp.asarray(pt)), np.float64)
-        ctx.check(np.all(np.abs(got - exp) <= 2e-6 * scale), "C13/rescale/action-map-does-not-take-new-bounds-onto-original", point=name, observed=got, expected=exp)
+        ctx.check(np.all(np.abs(got - exp) <= 2e-6 * scale + cond), "C13/rescale/action-map-does-not-take-new-bounds-onto-original", point=name, observed=got, expected=exp)
     # the same through the environment: the base env's recorded a0 is the mapped first component
     st0 = env.initial(key=jr.key(0))
     nxt = env.transition(st0, jnp.asarray(mx), key=jr.key(1))
-    ctx.check(abs(float(wrapref.base_state(nxt).acc) - high[0]) <= 2e-6 * scale[0], "C13/rescale/dynamics-not-driven-with-mapped-action", observed=float(wrapref.base_state(nxt).acc), expected=high[0])
+    ctx.check(abs(float(wrapref.base_state(nxt).acc) - high[0]) <= 2e-6 * scale[0] + cond[0], "C13/rescale/dynamics-not-driven-with-mapped-action", observed=float(wrapref.base_state(nxt).acc), expected=high[0])
     # observation rescale: forward map takes the original bounds onto the new ones
     obs_lo, obs_hi = np.asarray(case["olow"], np.float32), np.asarray(case["ohigh"], np.float32)
     nS = spec["nS"]
